@@ -83,6 +83,20 @@ func VerifC09_PubsubPath() {
 		var rm message.Message
 		verif_Assert(rm.UnmarshalCBOR(bytes.NewReader(pub[before])) == nil && rm.Cid == c09cid(8) && rm.OrigPeer == sender.String(), "the republished message carries the CID and the original publisher")
 	}
+	// republishing is best effort: when it fails the announcement is delivered all the same
+	verif_PubsubPublishFails(true)
+	for len(r.outChan) > 0 {
+		<-r.outChan
+	}
+	derr = r.Direct(context.Background(), c09cid(9), peer.AddrInfo{ID: sender})
+	verif_Assert(derr == nil, "a direct announcement whose republication fails is still accepted")
+	select {
+	case a := <-r.outChan:
+		verif_Assert(a.Cid == c09cid(9) && a.PeerID == sender, "and delivered")
+	default:
+		verif_Assert(false, "an allowed, unseen announcement is delivered even if it cannot be republished")
+	}
+	verif_PubsubPublishFails(false)
 	verif_Assert(r.Close() == nil, "Close succeeds")
 	verif_Quiesce()
 	verif_Assert(verif_LiveThreads() <= 0, "the pubsub watcher goroutine exits on Close")
